@@ -1400,9 +1400,7 @@ impl ASN1Type {
         match self {
             ASN1Type::Null | ASN1Type::Enumerated(_) | ASN1Type::Boolean(_) => true,
             ASN1Type::Integer(i) => {
-                i.constraints.iter().fold(IntegerType::Unbounded, |acc, c| {
-                    acc.max_restrictive(c.integer_constraints())
-                }) != IntegerType::Unbounded
+                Constraint::integer_type_of(&i.constraints) != IntegerType::Unbounded
             }
             ASN1Type::Choice(c) => c
                 .options
